@@ -233,6 +233,25 @@ def run(chk):
         formula, variables = r[1]
         ok, detail = check_encoding(formula, variables, types, fanin)
         chk.ob("C01.M.multi-gate", f"cnf::model::{mname}", ok, file=FILE, func="cnf", line=fi.node.lineno, fact=detail, expect="models == consistent valuations, one per startpoint assignment")
+    # the shared corner-case corpus (feed-through ports, constants, shared operand sets, adversarial names)
+    from ..corpus import corpus
+
+    for k_, tags, cc in corpus(chk.tier):
+        types = {n_: cc.type(n_) for n_ in cc.nodes()}
+        fanin = {n_: sorted(cc.fanin(n_)) for n_ in cc.nodes()}
+        r = run_func(repo, "cnf", {cname: cc})
+        n_eval += 1
+        if "x" in tags:
+            chk.ob("C01.D.dispatch", f"cnf::corpus::{k_}", r == ("raise", "ValueError"), file=FILE, func="cnf", fact={"result": str(r)[:80]}, expect="ValueError for the x constant")
+            continue
+        if r[0] != "return":
+            chk.ob("C01.M.multi-gate", f"cnf::corpus::{k_}", False, file=FILE, func="cnf", line=fi.node.lineno, fact={"raises": str(r)[:120]})
+            continue
+        formula, variables = r[1]
+        if max([variables.top] + [abs(l) for c_ in formula.clauses for l in c_]) > 17:
+            continue  # too many variables to enumerate exhaustively; the smaller models cover the same shapes
+        ok, detail = check_encoding(formula, variables, types, fanin)
+        chk.ob("C01.M.multi-gate", f"cnf::corpus::{k_}", ok, file=FILE, func="cnf", line=fi.node.lineno, fact=detail, expect="models == consistent valuations, one per startpoint assignment")
     # no stale memoised encoding after an in-place edit that keeps node / edge counts
     from ..stale import stale_state_rule
 
